@@ -27,9 +27,9 @@ CONST_QUERIES = ('GetExpectationValue', 'GetExpectationValueD', 'GetIntermediate
                  'Get_rel_error', 'Get_abs_error', 'Get_NumSteps')
 
 
-def all_globals(db):
+def all_globals(db, units=None):
     seen = {}
-    for un in UNITS:
+    for un in (units or UNITS):
         unit = db.unit(un)
         for g in unit.globals:
             key = (g['name'], g.get('function'), tuple(g.get('l', [0, 0])[1:2]) if g.get('staticLocal') else None)
@@ -38,9 +38,9 @@ def all_globals(db):
     return seen
 
 
-def record_table(db):
+def record_table(db, units=None):
     recs = {}
-    for un in UNITS:
+    for un in (units or UNITS):
         for r in db.unit(un).records:
             recs.setdefault(r.get('spec') or r['name'], r)
             recs.setdefault(r['name'], r)
@@ -80,9 +80,9 @@ def releases(t, recs, depth=0):
     return any(releases(f['t'], recs, depth + 1) for f in r['fields'] if not elem_type(f['t']).endswith('*'))
 
 
-def check_storage(db, rep):
-    globs = all_globals(db)
-    recs = record_table(db)
+def check_storage(db, rep, units=None, floors=True):
+    globs = all_globals(db, units)
+    recs = record_table(db, units)
     n_mut = 0
     tls_objs = []
     for (name, fn, _ln), (unit, g) in sorted(globs.items(), key=lambda x: (x[0][0], x[0][1] or '', str(x[0][2]))):
@@ -98,8 +98,9 @@ def check_storage(db, rep):
         n_mut += 1
         rep.fail('E.static', site, where, 'static storage is top-level const (initialised once) or thread_local',
                  'mutable object of type %s shared by all threads' % g.get('t'), fn)
-    rep.floor('E.static', len(globs), 60)
-    rep.floor('E.tls', len(tls_objs), 31)
+    if floors:
+        rep.floor('E.static', len(globs), 60)
+        rep.floor('E.tls', len(tls_objs), 31)
     rep.sample('E.static', '%d objects with static/thread storage: %d thread_local, %d const, %d other' %
                (len(globs), len(tls_objs), len(globs) - len(tls_objs) - n_mut, n_mut))
     # thread-exit: thread-local owners of heap blocks must release them
@@ -138,8 +139,8 @@ def root_is_this(e):
     return False
 
 
-def check_const_queries(db, rep):
-    unit = db.unit('SQuIDS')
+def check_const_queries(db, rep, unit_name='SQuIDS', floors=True):
+    unit = db.unit(unit_name)
     n = 0
     recs = [r for r in unit.records if r['name'] == 'squids::SQuIDS']
     if not recs:
@@ -181,12 +182,13 @@ def check_const_queries(db, rep):
             rep.fail('E.const.write', sig(f), unit.loc(bad[0]), 'a const query writes only locals and thread-locals', bad[1], sig(f))
         else:
             rep.ok('E.const.write')
-    rep.floor('E.const.write', n, 7)
+    if floors:
+        rep.floor('E.const.write', n, 7)
 
 
-def check_deny(db, rep):
+def check_deny(db, rep, units=None):
     n_sites = 0
-    for un in UNITS:
+    for un in (units or UNITS):
         unit = db.unit(un)
         for f in unit.functions:
             body_nodes = list(walk(f.get('body'))) + [x for ini in (f.get('inits') or []) for x in walk(ini.get('init'))]
@@ -212,10 +214,10 @@ def check_deny(db, rep):
         rep.ok('E.deny')
 
 
-def check_escape(db, rep, tls_objs):
+def check_escape(db, rep, tls_objs, units=None):
     """no function returns the address of / a reference to a thread-local object"""
     n = 0
-    for un in UNITS:
+    for un in (units or UNITS):
         unit = db.unit(un)
         for f in unit.functions:
             ret = f.get('ret', '')
@@ -240,3 +242,5 @@ def run(db, rep, tier):
     check_const_queries(db, rep)
     check_deny(db, rep)
     check_escape(db, rep, tls)
+    import fixtures
+    fixtures.controls_c18(rep)
